@@ -95,12 +95,7 @@ Proof.
   - change (jv (jmul NumDR k o (EJ e1) (EJ e2)) = ER e1 * ER e2). unfold jmul. rewrite jv_jdy, IHe1, IHe2. reflexivity.
   - change (jv (jdiv NumDR k o (EJ e1) (EJ e2)) = ER e1 / ER e2). unfold jdiv. rewrite jv_jdy, IHe1, IHe2. reflexivity.
   - change (jv (jneg NumDR k o (EJ e)) = - ER e). unfold jneg. rewrite jv_jmon, IHe. reflexivity.
-  - change (jv (jabs NumDR k o (EJ e)) = Rabs (ER e)). unfold jabs. rewrite IHe. cbn.
-    unfold Rltb. destruct (Rlt_dec (ER e) 0) as [H|H].
-    + unfold jneg. rewrite jv_jmon, IHe. cbn. rewrite Rabs_left by exact H. reflexivity.
-    + destruct (Rlt_dec 0 (ER e)) as [H2|H2].
-      * rewrite IHe. rewrite Rabs_right by lra. reflexivity.
-      * cbn. assert (ER e = 0) by lra. rewrite H0, Rabs_R0. reflexivity.
+  - change (jv (jabsf NumDR (EJ e)) = Rabs (ER e)). unfold jabsf. cbn. rewrite IHe. reflexivity.
   - change (jv (jsqrt NumDR k o (EJ e)) = sqrt (ER e)). unfold jsqrt. rewrite jv_jmon, IHe. reflexivity.
   - change (jv (jlog NumDR k o (EJ e)) = ln (ER e)). unfold jlog. rewrite jv_jmon, IHe. reflexivity.
   - change (jv (jconst (Rmax (jv (EJ e1)) (jv (EJ e2)))) = Rmax (ER e1) (ER e2)). cbn. rewrite IHe1, IHe2. reflexivity.
@@ -111,8 +106,6 @@ Proof.
   induction e; try apply wfj_const;
     try (first [apply wfj_jdy | apply wfj_jmon]).
   - cbn. intro H. discriminate H.
-  - change (wfj (jabs NumDR k o (EJ e))). unfold jabs.
-    destruct (ltb _ _ _); [apply wfj_jmon|]. destruct (ltb _ _ _); [exact IHe|apply wfj_const].
 Qed.
 
 End EvalJ.
